@@ -2,19 +2,30 @@
 C35 — Markdown rendering is total and agrees with CommonMark on the supported
 subset.
 
-Level: PARTIAL.  Proved here: termination (fuel sufficiency) and panic
-freedom of the models of elvish's two risky loops (`inline.go`
-processEmphasis, `md.go` parseStartingMarkers), termination of the reference
+Level: PARTIAL.  Proved here: totality of the model of the WHOLE BLOCK PHASE
+of md.go (`renderBlocks`: a fold over the lines, no bound check of the
+container stack ever fails, the marker loop never runs out of fuel), its
+invariance under line-number shifts and its locality (ops of non-interacting
+documents concatenate); termination (fuel sufficiency) and panic freedom of
+the model of `inline.go` processEmphasis; termination of the reference
 renderer's emphasis resolution (its tokenizer and line fold are structurally
-recursive: terminating by construction), and that the reference escapes all
-text.  NOT proved (`…_full` below): totality of the whole engine and agreement
-elvish = CommonMark; both are differential (see notes/C35.md).
+recursive: terminating by construction); the reference escapes all text and
+its HTML is well nested.  NOT proved (`…_full` below): totality of the inline
+phase beyond emphasis and of the codecs, and agreement elvish = CommonMark;
+both are differential (see notes/C35.md).
 -/
 import ElvModel.C35.Model
 import ElvModel.C35.RefHtml
 import ElvProofs.C35.Emph
 import ElvProofs.C35.Markers
 import ElvProofs.C35.Ref
+import ElvModel.C35.Block
+import ElvProofs.C35.BlockTotal
+import ElvProofs.C35.BlockConcat
+import ElvProofs.C35.BlockBound
+import ElvProofs.C35.BlockPara
+import ElvProofs.C35.BlockNest
+import ElvProofs.C35.WellNested
 open C35 Go
 
 /-! ## The property at full strength (not proved) -/
@@ -108,6 +119,159 @@ set_option maxRecDepth 8000 in
 example : startingMarkers 6 [0x3E, 0x20, 0x2D, 0x20, 0x61] true [] =
     some ([0x61], [.quote, .bullet 0x2D 2]) := by decide
 
+/-! ## md.go: the whole block phase (`blockParser.render`, lean/ElvModel/C35/Block.lean) -/
+
+/-- The main loop is STRUCTURAL RECURSION on the list of lines: every iteration
+consumes exactly one line (`backup()` + re-reading a line after a leaf block is
+the second call of `stepNormal` inside `stepBlk`, not another iteration), so
+`renderBlocks` is a total function by construction. -/
+theorem C35_block_loop_structural (st : BSt) (ln : Int) (l : Bytes) (rest : List Bytes) :
+    blockLoop st ln (l :: rest) =
+      (stepBlk st ln l rest.head?).2 ++ blockLoop (stepBlk st ln l rest.head?).1 (ln + 1) rest := rfl
+
+/-- TOTALITY of the block phase for ALL byte inputs: from any parser state and
+for any lines, no bound check on the container stack fails (`containers[matched-1]`,
+`containers[:keep]`, `len(containers)-1`) and the container-marker loop never
+runs out of its fuel `len(line)+1`. -/
+theorem C35_block_total_from (st : BSt) (ln : Int) (lines : List Bytes) :
+    BOp.panic ∉ blockLoop st ln lines ∧ BOp.fuel ∉ blockLoop st ln lines := by
+  have h := blockLoop_clean lines st ln
+  exact ⟨fun hp => by have := h _ hp; simp [BOp.bad] at this,
+         fun hf => by have := h _ hf; simp [BOp.bad] at this⟩
+
+theorem C35_block_total (doc : Bytes) :
+    BOp.panic ∉ renderBlocks doc ∧ BOp.fuel ∉ renderBlocks doc :=
+  C35_block_total_from initSt 1 (docLines doc)
+
+/-- non-vacuity: a quote with a list, then a fenced code block whose fence is
+closed by the end of the quote (`backup()`), then a paragraph -/
+example : renderBlocks (bs "> - a\n> ```\nb\n") =
+    [.opn 1 .quote 0, .opn 1 .bulletList 0, .opn 1 .bulletItem 0, .para 1 (bs "a"),
+     .cls 2 .bulletItem, .cls 2 .bulletList, .code 2 [] [], .cls 3 .quote, .para 3 (bs "b")] := by
+  decide +kernel
+
+/-- THE OP TRACE IS WELL NESTED FOR EVERY INPUT: the container ops the block
+phase hands to the codec (`OpBlockquoteStart/End`, `Op…ListStart/End`,
+`OpListItemStart/End`) form a Dyck word — every End closes the innermost open
+container of the same type, and everything is closed at the end — from any
+parser state whose open containers are `stack st`, in particular for
+`renderBlocks doc` for ALL byte strings `doc`.  (This is the implementation-side
+counterpart of `C35_ref_well_nested`: with a codec that writes one balanced
+fragment per leaf op, the output is well nested whatever the input.) -/
+theorem C35_block_trace_balanced_from (st : BSt) (ln : Int) (lines : List Bytes) :
+    balance (stack st) (blockLoop st ln lines) = some [] :=
+  blockLoop_bal lines st ln
+
+theorem C35_block_trace_balanced (doc : Bytes) : balance [] (renderBlocks doc) = some [] :=
+  blockLoop_bal (docLines doc) initSt 1
+
+/-- the checker is not trivial: crossed or unclosed containers are rejected -/
+example : balance [] [.opn 1 .quote 0, .opn 1 .bulletList 0, .cls 2 .quote, .cls 2 .bulletList] = none ∧
+    balance [] [.opn 1 .quote 0] = some [.quote] ∧
+    balance [] [.cls 1 .quote] = none := by decide
+
+/-- every container marker parsed by the model of `parseStartingMarkers`
+consumes at least one byte of the line: #markers + len(rest) ≤ len(line) -/
+theorem C35_markers_consume (line : Bytes) (np : Bool) (rest : Bytes) (cs : List Cont)
+    (h : startingMarkers (line.length + 1) line np [] = some (rest, cs)) :
+    cs.length + rest.length ≤ line.length := by
+  have := startingMarkers_count _ _ _ _ _ _ h
+  simpa using this
+
+/-- THE CONTAINER STACK IS BOUNDED BY THE LINE'S LENGTH: one line makes the
+stack grow by at most `2·len(line)` containers (a list + an item per marker,
+each marker at least one byte) … -/
+theorem C35_block_stack_growth (st : BSt) (ln : Int) (l : Bytes) (next : Option Bytes) :
+    (stepBlk st ln l next).1.ctrs.length ≤ st.ctrs.length + 2 * l.length :=
+  stepBlk_len st ln l next
+
+/-- … so after any prefix `a` of the lines the stack holds at most twice as
+many containers as bytes were read -/
+theorem C35_block_stack_bounded (a : List Bytes) (nx : Option Bytes) :
+    (runLines initSt 1 a nx).1.ctrs.length ≤ 2 * (a.map List.length).sum := by
+  have := runLines_len a initSt 1 nx
+  simpa [initSt] using this
+
+example : (runLines initSt 1 [bs "> - > a", bs "b"] none).1.ctrs.length = 4 := by decide +kernel
+
+/-- the bound of `C35_markers_consume` is attained: `>>>` is three markers in three bytes -/
+example : startingMarkers 4 [0x3E, 0x3E, 0x3E] true [] = some ([], [.quote, .quote, .quote]) := by decide +kernel
+
+/-- The block phase does not depend on absolute line numbers: shifting the
+start line (and the line numbers recorded in the state) by `k` shifts every
+`LineNo` of the output by `k` and changes nothing else. -/
+theorem C35_block_shift (k : Int) (st : BSt) (ln : Int) (lines : List Bytes) :
+    blockLoop (st.shift k) (ln + k) lines = (blockLoop st ln lines).map (BOp.shift k) :=
+  blockLoop_shift k lines st ln
+
+/-- non-vacuity: an open fenced code block recorded at line 2, shifted by 40 -/
+example : blockLoop (BSt.shift 40 { ctrs := [], para := [], mode := .fenced 2 0 0x60 3 [] [bs "x"] }) (3 + 40)
+      [bs "y", bs "```", bs "z"] =
+    [.code 42 [] [bs "x", bs "y"], .para 45 (bs "z")] := by decide +kernel
+
+/-- LOCALITY: if after the lines `a` the parser is back in its initial state
+(nothing open), the ops of `a ++ b` are the ops of `a` followed by the ops of
+`b` with line numbers shifted by `len a`. -/
+theorem C35_block_local (a b : List Bytes) (opsA : List BOp)
+    (h : runLines initSt 1 a b.head? = (initSt, opsA)) :
+    blockLoop initSt 1 (a ++ b) = opsA ++ (blockLoop initSt 1 b).map (BOp.shift a.length) :=
+  blockLoop_concat a b opsA h
+
+/-- non-vacuity: after `# h` and an empty line nothing is open -/
+example : runLines initSt 1 [bs "# h", []] (some (bs "- x")) = (initSt, [.heading 1 1 (bs "h") []]) := by
+  decide +kernel
+
+/-- CONCATENATION: for a document `d1` ending in a newline and a document
+`d2` that do not interact (`Separable`: nothing is left open after `d1` — no
+list or block quote spanning the boundary, no unclosed fence or HTML block),
+the block ops of `d1 ++ d2` are those of `d1` followed by those of `d2`
+(line numbers shifted).  Every codec consumes the ops in sequence, so the
+rendering of blank-line-separated top-level blocks is the concatenation of
+their renderings. -/
+theorem C35_block_concat (x d2 : Bytes) (h : Separable (x ++ [NL]) d2) :
+    renderBlocks (x ++ [NL] ++ d2) =
+      renderBlocks (x ++ [NL]) ++ (renderBlocks d2).map (BOp.shift (docLines (x ++ [NL])).length) :=
+  renderBlocks_concat x d2 h
+
+/-- A syntactic instance of non-interaction: a top-level PARAGRAPH whose lines
+start with a byte that starts no block (`PlainLine`: not space/tab, none of
+``- _ * # ` ~ > + <``, not a digit), followed by an empty line, produces one
+`para` op and leaves the parser in its initial state — so whatever follows is
+rendered exactly as it would be on its own (line numbers shifted). -/
+theorem C35_block_paragraph_independent (ls b : List Bytes) (hne : ls ≠ [])
+    (hl : ∀ l ∈ ls, PlainLine l) :
+    blockLoop initSt 1 (ls ++ [[]] ++ b) =
+      [.para 1 (trimSpTab (joinNL ls))] ++
+        (blockLoop initSt 1 b).map (BOp.shift ((ls ++ [[]]).length : Int)) :=
+  blockLoop_concat (ls ++ [[]]) b _ (runLines_paragraph ls hne hl b.head?)
+
+example : PlainLine [0x66, 0x6F, 0x6F, 0x20, 0x2A, 0x62, 0x2A] := ⟨_, _, rfl, by decide⟩
+
+/-- RENDERING IS CONCATENATION: for every codec that writes each op on its own
+and ignores line numbers (`f`; `HTMLCodec.Do` is one: it appends to a
+`strings.Builder` and never reads `LineNo`), the rendering of `d1 ++ d2` is the
+rendering of `d1` followed by the rendering of `d2` when the two documents do
+not interact. -/
+theorem C35_render_concat (f : BOp → Bytes) (hf : ∀ k op, f (BOp.shift k op) = f op)
+    (x d2 : Bytes) (h : Separable (x ++ [NL]) d2) :
+    (renderBlocks (x ++ [NL] ++ d2)).flatMap f =
+      (renderBlocks (x ++ [NL])).flatMap f ++ (renderBlocks d2).flatMap f := by
+  rw [C35_block_concat x d2 h, List.flatMap_append]
+  congr 1
+  rw [List.flatMap_map]
+  congr 1
+  funext op
+  exact hf _ op
+
+/-- non-vacuity: a paragraph followed by a blank line, then a heading -/
+example : Separable (bs "a\nb\n" ++ [NL]) (bs "# c\n") :=
+  ⟨[.para 1 (bs "a\nb")], by decide +kernel, by decide +kernel⟩
+
+/-- and the hypothesis is needed: a list item stays open across the blank line -/
+example : renderBlocks (bs "- a\n" ++ [NL] ++ bs "  b\n") ≠
+    renderBlocks (bs "- a\n" ++ [NL]) ++ (renderBlocks (bs "  b\n")).map (BOp.shift 2) := by
+  decide +kernel
+
 /-! ## the CommonMark reference -/
 
 /-- TERMINATION of the reference's emphasis resolution (`procEmph` with the
@@ -121,5 +285,24 @@ theorem C35_ref_emph_terminates (items : List Item) : resolveEmph items ≠ none
 output: `escHtml` replaces them (and `&`) by entities. -/
 theorem C35_ref_text_escaped (s : Bytes) : ∀ b ∈ escHtml s, b ≠ 0x3C ∧ b ≠ 0x3E ∧ b ≠ 0x22 :=
   escHtml_safe s
+
+/-- WELL-NESTEDNESS of the reference's HTML: whenever the reference renders a
+document, the output is the flattening of a token list that is a Dyck word
+over the tags (`WellNested`), every text token is free of `<`, `>`, `"` and
+every attribute value is free of `<`, `>`, `"` (`Ev.Safe`), so the tokenization
+of the bytes is unambiguous. -/
+theorem C35_ref_well_nested (U : UClass) (loose : Bool) (doc h : Bytes)
+    (hr : render U loose doc = some h) :
+    ∃ evs : List Ev, flat evs = h ∧ WellNested evs ∧ (∀ e ∈ evs, e.Safe) :=
+  ref_well_nested U loose doc h hr
+
+/-- the same at the level of BYTES: the byte-level scanner `scanB` (a model of
+the harness oracle `malformedHTML`: tags must match, no stray `<`, `>`, `"`)
+accepts the reference's output -/
+theorem C35_ref_bytes_balanced (U : UClass) (loose : Bool) (doc h : Bytes)
+    (hr : render U loose doc = some h) : scanB [] .text h = true :=
+  ref_bytes_balanced U loose doc h hr
+
+example : (render stdU true (bs "> - *a*\n")).isSome = true := by decide +kernel
 
 example : escHtml [0x61, 0x3C, 0x26] = [0x61, 0x26, 0x6C, 0x74, 0x3B, 0x26, 0x61, 0x6D, 0x70, 0x3B] := by decide
